@@ -619,4 +619,265 @@ theorem ex_mem_inverse : zero6 ∈ exOpw.inverse exPose := by
   rw [if_neg (by simpa using ex_dof)]
   exact ex_mem
 
+/-! ### Every raw solution of the shift loop is within `3π` of a previous vector in `[-2π, 2π]` -/
+
+/-- `|x| ≤ n·π` -/
+def B (n : ℕ) (x : ℝ) : Prop := |x| ≤ n * Real.pi
+
+theorem B_arg (y x : ℝ) : B 1 (natan2 y x) := by
+  unfold B; rw [natan2_real, Nat.cast_one, one_mul]; exact Complex.abs_arg_le_pi _
+theorem B_arccos (x : ℝ) : B 1 (nacos x) := by
+  unfold B; rw [nacos_real, Nat.cast_one, one_mul, abs_of_nonneg (Real.arccos_nonneg x)]
+  exact Real.arccos_le_pi x
+theorem B_pi : B 1 (pi : ℝ) := by
+  unfold B; rw [pi_def_real, Nat.cast_one, one_mul, abs_of_pos Real.pi_pos]
+theorem B_add {m n : ℕ} {a b : ℝ} (ha : B m a) (hb : B n b) : B (m + n) (a + b) := by
+  unfold B at *; push_cast; have := abs_add_le a b; linarith
+theorem B_sub {m n : ℕ} {a b : ℝ} (ha : B m a) (hb : B n b) : B (m + n) (a - b) := by
+  unfold B at *; push_cast; have := abs_sub a b; linarith
+theorem B_neg {m : ℕ} {a : ℝ} (ha : B m a) : B m (-a) := by
+  unfold B at *; rwa [abs_neg]
+theorem B_mono {m n : ℕ} {a : ℝ} (ha : B m a) (h : m ≤ n) : B n a := by
+  unfold B at *
+  have : (m : ℝ) ≤ n := by exact_mod_cast h
+  have := Real.pi_pos
+  nlinarith
+
+/-- `|aᵢ| ≤ c` for all six joints -/
+def absLe (a : J6 ℝ) (c : ℝ) : Prop :=
+  |a.j1| ≤ c ∧ |a.j2| ≤ c ∧ |a.j3| ≤ c ∧ |a.j4| ≤ c ∧ |a.j5| ≤ c ∧ |a.j6| ≤ c
+
+theorem B3_abs (x : ℝ) (hx : B 3 x) : |x| ≤ 3 * Real.pi := by
+  unfold B at hx; push_cast at hx; exact hx
+
+macro "bnd3" : tactic => `(tactic|
+  (apply B3_abs
+   apply B_mono
+   · repeat' (first | exact B_arg _ _ | exact B_arccos _ | exact B_pi | apply B_add | apply B_sub | apply B_neg)
+   · decide))
+
+theorem thetaCandidates_bound (p : Params ℝ) (pose : Iso ℝ) (t : J6 ℝ)
+    (ht : t ∈ thetaCandidates p pose) : absLe t (3 * Real.pi) := by
+  unfold thetaCandidates at ht
+  simp only [List.mem_cons, List.not_mem_nil, or_false] at ht
+  unfold absLe
+  rcases ht with rfl | rfl | rfl | rfl | rfl | rfl | rfl | rfl <;>
+    refine ⟨?_, ?_, ?_, ?_, ?_, ?_⟩ <;> bnd3
+
+/-- `|aᵢ − bᵢ| ≤ c` for all six joints -/
+def within (a b : J6 ℝ) (c : ℝ) : Prop :=
+  |a.j1 - b.j1| ≤ c ∧ |a.j2 - b.j2| ≤ c ∧ |a.j3 - b.j3| ≤ c ∧ |a.j4 - b.j4| ≤ c ∧ |a.j5 - b.j5| ≤ c ∧
+    |a.j6 - b.j6| ≤ c
+
+theorem prod_bound (a s c : ℝ) (ha : |a| ≤ c) (hs : |s| ≤ 1) : |a * s| ≤ c := by
+  rw [abs_mul]
+  have := abs_nonneg a
+  have := abs_nonneg s
+  nlinarith
+
+theorem joint_bound (t o s : ℝ) (ht : |t| ≤ 3 * Real.pi) (ho : |o| ≤ 100000) (hs : |s| ≤ 1) :
+    |(t + o) * s| ≤ 2 * Real.pi * 100000 := by
+  have h2 := Real.two_le_pi
+  have h4 := Real.pi_le_four
+  have h1 : |t + o| ≤ 3 * Real.pi + 100000 := (abs_add_le t o).trans (by linarith)
+  exact (prod_bound _ _ _ h1 hs).trans (by linarith)
+
+theorem jointsOf_bound (p : Params ℝ) (t : J6 ℝ) (ht : absLe t (3 * Real.pi)) (hs : absLe p.signs 1)
+    (ho : absLe p.offsets 100000) : absLe (jointsOf p t) (2 * Real.pi * 100000) := by
+  obtain ⟨t1, t2, t3, t4, t5, t6⟩ := ht
+  obtain ⟨s1, s2, s3, s4, s5, s6⟩ := hs
+  obtain ⟨o1, o2, o3, o4, o5, o6⟩ := ho
+  exact ⟨joint_bound _ _ _ t1 o1 s1, joint_bound _ _ _ t2 o2 s2, joint_bound _ _ _ t3 o3 s3,
+    joint_bound _ _ _ t4 o4 s4, joint_bound _ _ _ t5 o5 s5, joint_bound _ _ _ t6 o6 s6⟩
+
+theorem normPi_abs_le (x : ℝ) (h : |x| ≤ 2 * Real.pi * 100000) : |normPi x| ≤ Real.pi := by
+  have hm : -Real.pi ≤ normPi x ∧ normPi x ≤ Real.pi := by
+    unfold normPi normFuel
+    apply normPiF_mem
+    push_cast
+    linarith [Real.pi_pos]
+  exact abs_le.mpr hm
+
+/-- the solutions of `inverse_intern` have all angles in `[-π, π]` (sign corrections `±1`, offsets
+small enough for the fuel of `normPi`) -/
+theorem inverseIntern_absLe (p : Params ℝ) (pose : Iso ℝ) (s : J6 ℝ) (hs : absLe p.signs 1)
+    (ho : absLe p.offsets 100000) (h : s ∈ inverseIntern p pose) : absLe s Real.pi := by
+  unfold inverseIntern at h
+  rw [List.mem_filterMap] at h
+  obtain ⟨t, ht, hf⟩ := h
+  obtain ⟨b1, b2, b3, b4, b5, b6⟩ := jointsOf_bound p t (thetaCandidates_bound p pose t ht) hs ho
+  unfold finishCandidate at hf
+  simp only at hf
+  split_ifs at hf
+  cases hf
+  exact ⟨normPi_abs_le _ b1, normPi_abs_le _ b2, normPi_abs_le _ b3, normPi_abs_le _ b4,
+    normPi_abs_le _ b5, normPi_abs_le _ b6⟩
+
+/-- the same for the first five angles of `inverse_intern_5_dof`; the sixth is the given `j6` -/
+theorem inverseIntern5_absLe (p : Params ℝ) (pose : Iso ℝ) (j6 : ℝ) (s : J6 ℝ) (hs : absLe p.signs 1)
+    (ho : absLe p.offsets 100000) (h : s ∈ inverseIntern5 p pose j6) :
+    |s.j1| ≤ Real.pi ∧ |s.j2| ≤ Real.pi ∧ |s.j3| ≤ Real.pi ∧ |s.j4| ≤ Real.pi ∧ |s.j5| ≤ Real.pi ∧
+      s.j6 = j6 := by
+  unfold inverseIntern5 at h
+  rw [List.mem_filterMap] at h
+  obtain ⟨t, ht, hf⟩ := h
+  obtain ⟨b1, b2, b3, b4, b5, b6⟩ := jointsOf_bound p t (thetaCandidates_bound p pose t ht) hs ho
+  unfold finishCandidate5 at hf
+  simp only at hf
+  split_ifs at hf
+  cases hf
+  exact ⟨normPi_abs_le _ b1, normPi_abs_le _ b2, normPi_abs_le _ b3, normPi_abs_le _ b4,
+    normPi_abs_le _ b5, rfl⟩
+
+/-- the pose handed to `inverse_intern` for the shift `d` -/
+def shiftedPose {R : Type} [OpwNum R] (pose : Iso R) (d : V3 R) : Iso R :=
+  ⟨⟨pose.t.x + d.x, pose.t.y + d.y, pose.t.z + d.z⟩, pose.q⟩
+
+/-- where the elements of the list after one shift step come from (any number type) -/
+theorem shiftStep_mem {R : Type} [OpwNum R] (k : Opw R) (pose : Iso R) (previous : J6 R)
+    (sols : List (J6 R)) (d : V3 R) {s : J6 R} (h : s ∈ (shiftStep k pose previous sols d).1) :
+    s ∈ sols ∨ s ∈ inverseIntern k.p (shiftedPose pose d) ∨
+      ∃ s0 ∈ inverseIntern k.p (shiftedPose pose d), s = singularCandidate k.p previous s0 := by
+  unfold shiftStep at h
+  simp only at h
+  unfold shiftedPose
+  split at h
+  · split_ifs at h
+    · simp only [List.mem_append] at h; tauto
+    · exact Or.inl h
+  · rename_i s0 hfind
+    have hs0 := List.mem_of_find?_eq_some hfind
+    split_ifs at h <;> simp only [List.mem_append, List.mem_singleton] at h
+    · rcases h with (h | h) | h
+      · exact Or.inl h
+      · exact Or.inr (Or.inl h)
+      · exact Or.inr (Or.inr ⟨s0, hs0, h⟩)
+    · rcases h with h | h
+      · exact Or.inl h
+      · exact Or.inr (Or.inr ⟨s0, hs0, h⟩)
+    · rcases h with h | h
+      · exact Or.inl h
+      · exact Or.inr (Or.inl h)
+    · exact Or.inl h
+
+/-- where the elements of the final list of the shift loop come from (any number type) -/
+theorem shiftLoop_mem {R : Type} [OpwNum R] (k : Opw R) (pose : Iso R) (previous : J6 R)
+    (ds : List (V3 R)) (sols : List (J6 R)) {s : J6 R} (h : s ∈ shiftLoop k pose previous ds sols) :
+    s ∈ sols ∨ ∃ d ∈ ds, s ∈ inverseIntern k.p (shiftedPose pose d) ∨
+      ∃ s0 ∈ inverseIntern k.p (shiftedPose pose d), s = singularCandidate k.p previous s0 := by
+  induction ds generalizing sols with
+  | nil => exact Or.inl h
+  | cons d ds ih =>
+    unfold shiftLoop at h
+    simp only at h
+    have step : ∀ {s}, s ∈ (shiftStep k pose previous sols d).1 → s ∈ sols ∨ ∃ d' ∈ d :: ds,
+        s ∈ inverseIntern k.p (shiftedPose pose d') ∨
+          ∃ s0 ∈ inverseIntern k.p (shiftedPose pose d'), s = singularCandidate k.p previous s0 := by
+      intro s hs
+      rcases shiftStep_mem k pose previous sols d hs with h1 | h1
+      · exact Or.inl h1
+      · exact Or.inr ⟨d, List.mem_cons_self, h1⟩
+    split_ifs at h
+    · exact step h
+    · rcases ih _ h with h1 | ⟨d', hd', h1⟩
+      · exact step h1
+      · exact Or.inr ⟨d', List.mem_cons_of_mem _ hd', h1⟩
+
+theorem within_of_absLe (s prev : J6 ℝ) (hs : absLe s Real.pi) (hp : absLe prev (2 * Real.pi)) :
+    within s prev (3 * Real.pi) := by
+  obtain ⟨s1, s2, s3, s4, s5, s6⟩ := hs
+  obtain ⟨p1, p2, p3, p4, p5, p6⟩ := hp
+  refine ⟨?_, ?_, ?_, ?_, ?_, ?_⟩ <;> refine (abs_sub _ _).trans ?_ <;> linarith
+
+theorem half_turn_bound (prev4 x s4 : ℝ) (hx : |x| ≤ 2 * Real.pi * 100000) (hs : |s4| ≤ 1) :
+    |prev4 + normPi x / 2 * s4 - prev4| ≤ 3 * Real.pi := by
+  have hpi := Real.pi_pos
+  have h1 : |normPi x / 2| ≤ Real.pi := by
+    rw [abs_div, abs_of_pos (by norm_num : (0 : ℝ) < 2)]
+    have := normPi_abs_le x hx
+    linarith
+  have : prev4 + normPi x / 2 * s4 - prev4 = normPi x / 2 * s4 := by ring
+  rw [this]
+  exact (prod_bound _ _ _ h1 hs).trans (by linarith)
+
+/-- the redistributed singular candidate stays within `3π` of `previous` -/
+theorem singularCandidate_within (p : Params ℝ) (prev s0 : J6 ℝ) (hs : absLe p.signs 1)
+    (h0 : absLe s0 Real.pi) (hp : absLe prev (2 * Real.pi)) :
+    within (singularCandidate p prev s0) prev (3 * Real.pi) := by
+  have hpi := Real.pi_pos
+  obtain ⟨w1, w2, w3, w4, w5, w6⟩ := within_of_absLe s0 prev h0 hp
+  obtain ⟨a1, a2, a3, a4, a5, a6⟩ := h0
+  obtain ⟨p1, p2, p3, p4, p5, p6⟩ := hp
+  obtain ⟨g1, g2, g3, g4, g5, g6⟩ := hs
+  have q1 := prod_bound _ _ _ a4 g4
+  have q2 := prod_bound _ _ _ a6 g6
+  have q3 := prod_bound _ _ _ p4 g4
+  have q4 := prod_bound _ _ _ p6 g6
+  rw [abs_le] at q1 q2 q3 q4
+  have hx : ∀ z : Bool, |(if z = true then
+        s0.j4 * p.signs.j4 + s0.j6 * p.signs.j6 else s0.j4 * p.signs.j4 - s0.j6 * p.signs.j6) -
+      (if z = true then
+        prev.j4 * p.signs.j4 + prev.j6 * p.signs.j6 else prev.j4 * p.signs.j4 - prev.j6 * p.signs.j6)|
+      ≤ 2 * Real.pi * 100000 := by
+    intro z
+    split_ifs <;> rw [abs_le] <;> constructor <;> linarith
+  unfold singularCandidate within
+  simp only
+  refine ⟨w1, w2, w3, half_turn_bound _ _ _ (hx _) g4, ?_, half_turn_bound _ _ _ (hx _) g6⟩
+  split_ifs
+  · exact w5
+  · exact (normalizeNear_dist _ _ (by linarith)).trans (by linarith)
+
+/-- all raw solutions collected by the shift loop are within `3π` of `prev` -/
+theorem shiftLoop_within (k : Opw ℝ) (pose : Iso ℝ) (prev : J6 ℝ) (hs : absLe k.p.signs 1)
+    (ho : absLe k.p.offsets 100000) (hp : absLe prev (2 * Real.pi)) (ds : List (V3 ℝ)) (s : J6 ℝ)
+    (h : s ∈ shiftLoop k pose prev ds []) : within s prev (3 * Real.pi) := by
+  rcases shiftLoop_mem k pose prev ds [] h with h | ⟨d, _, h | ⟨s0, h0, rfl⟩⟩
+  · cases h
+  · exact within_of_absLe s prev (inverseIntern_absLe _ _ s hs ho h) hp
+  · exact singularCandidate_within _ _ _ hs (inverseIntern_absLe _ _ s0 hs ho h0) hp
+
+theorem normalizeNear_within (s prev : J6 ℝ) (h : within s prev (5 * Real.pi)) :
+    within (s.normalizeNear prev) prev Real.pi := by
+  obtain ⟨h1, h2, h3, h4, h5, h6⟩ := h
+  exact ⟨normalizeNear_dist _ _ h1, normalizeNear_dist _ _ h2, normalizeNear_dist _ _ h3,
+    normalizeNear_dist _ _ h4, normalizeNear_dist _ _ h5, normalizeNear_dist _ _ h6⟩
+
+theorem within_mono {a b : J6 ℝ} {c c' : ℝ} (h : within a b c) (hc : c ≤ c') : within a b c' := by
+  obtain ⟨h1, h2, h3, h4, h5, h6⟩ := h
+  exact ⟨h1.trans hc, h2.trans hc, h3.trans hc, h4.trans hc, h5.trans hc, h6.trans hc⟩
+
+/-! ### The `5π` range of `normalizeNear_dist` cannot be widened -/
+
+theorem adj12_of_gt (now prev : ℝ) (h : now - prev > Real.pi) : adj12 now prev = now - 2 * Real.pi := by
+  have hpi := Real.pi_pos
+  unfold adj12
+  have h1 : |now - prev| > |now - 2 * Real.pi - prev| := by
+    rcases abs_cases (now - prev) with ⟨e1, _⟩ | ⟨e1, _⟩ <;>
+    rcases abs_cases (now - 2 * Real.pi - prev) with ⟨e2, _⟩ | ⟨e2, _⟩ <;> rw [e1, e2] <;> linarith
+  have h2 : ¬ (|now - 2 * Real.pi - prev| > |now - 2 * Real.pi + 2 * Real.pi - prev|) := by
+    rw [not_lt]
+    rcases abs_cases (now - 2 * Real.pi - prev) with ⟨e1, _⟩ | ⟨e1, _⟩ <;>
+    rcases abs_cases (now - 2 * Real.pi + 2 * Real.pi - prev) with ⟨e2, _⟩ | ⟨e2, _⟩ <;> rw [e1, e2] <;> linarith
+  simp only [if_pos h1, if_neg h2]
+
+theorem adjustNear_of_gt (now prev : ℝ) (h : now - prev > Real.pi) (hn : |now - 2 * Real.pi| ≠ Real.pi) :
+    adjustNear now prev = now - 2 * Real.pi := by
+  rw [adjustNear_eq, adj12_of_gt now prev h, if_neg]
+  unfold flips
+  exact fun hf => hn hf.1
+
+/-- six half-turns away: two passes remove only two turns -/
+theorem normalizeNear_six_pi : normalizeNear (6 * Real.pi) 0 = 2 * Real.pi := by
+  have hpi := Real.pi_pos
+  unfold normalizeNear
+  rw [adjustNear_of_gt (6 * Real.pi) 0 (by linarith) (by rw [abs_of_pos (by linarith)]; linarith)]
+  rw [adjustNear_of_gt _ 0 (by linarith) (by rw [abs_of_pos (by linarith)]; linarith)]
+  ring
+
+/-- the list `inverse_continuing` builds before filtering: shift loop, `normalize_near`, sort -/
+def sortedUnfiltered {R : Type} [OpwNum R] (k : Opw R) (pose : Iso R) (prev : J6 R) : List (J6 R) :=
+  k.sortByCloseness ((shiftLoop k pose (k.reference prev) shifts []).map
+    (fun s => s.normalizeNear (k.reference prev))) (k.reference prev)
+
 end Opw.Nearest
